@@ -18,8 +18,9 @@
  *
  * Slot states: NULL (never used), JANET_SYMCACHE_DELETED (tombstone), or a live symbol object.
  * wf_cache:
- *   I1 capacity is a power of two >= 2 (1024 at init, janet_tablen(2*count+1) >= 2 on resize); janet_vm.cache is a heap
- *      block of exactly capacity slots; every slot NULL, tombstone, or an object of the universe
+ *   I1 capacity is a power of two >= 4 (1024 at init; janet_symcache_put - the only caller of janet_cache_resize - asks for
+ *      max(4, janet_tablen(2*count+1))); janet_vm.cache is a heap block of exactly capacity slots; every slot NULL,
+ *      tombstone, or an object of the universe
  *   I2 no two live entries carry the same text                                       (C03: same text => identical pointer)
  *   I3 every live entry is reachable from its home slot hash & (cap-1) by linear probing with wrap-around without
  *      crossing a NULL slot; tombstones do not stop a probe                          (C01: a live symbol stays findable)
@@ -27,7 +28,9 @@
  *      re-uses a tombstone handed out by findmem without decrementing cache_deleted, so it is an upper bound only)
  *   I5 2 * (cache_count + cache_deleted) <= capacity + 2   (janet_symcache_put checks the load BEFORE it adds an entry)
  *   I6 at least one slot is not live - otherwise the lookup of an absent text ends in findmem's fatal
- *      "symcache failed to get memory". For capacity >= 4 this follows from I4 + I5; at capacity 2 it does not.
+ *      "symcache failed to get memory". With capacity >= 4 it follows from I4 + I5; it is kept as a clause of its own
+ *      because every put unit must re-establish it (before commit 9ee9625 "symbol cache never shrinks below 4 slots" a
+ *      cache of capacity 2 could be filled completely: native reproducer design-probes/repro/symcache_repro_cap2.c).
  * Fatal exits (abort / exit) are obligations in these units, not assumptions. */
 #ifndef VC_SYMCACHE_COMMON_H
 #define VC_SYMCACHE_COMMON_H
@@ -87,7 +90,8 @@ int janet_string_equalconst(const uint8_t *lhs, const uint8_t *rhs, int32_t rlen
 
 typedef struct { int kind[SY_MAXB]; const uint8_t *ptr[SY_MAXB]; uint32_t cap, count, deleted, nlive, ntomb; } SyView;
 
-static int sy_pow2(uint32_t cap) { return cap >= 2 && cap <= SY_MAXB && (cap & (cap - 1)) == 0; }
+#define SY_MINCAP 4                      /* I1: smallest capacity of a well-formed cache */
+static int sy_pow2(uint32_t cap) { return cap >= SY_MINCAP && cap <= SY_MAXB && (cap & (cap - 1)) == 0; }
 static uint32_t sy_home(uint32_t cap, int t) { return (uint32_t) g_sy_hash[t] & (cap - 1); }
 static uint32_t sy_dist(uint32_t cap, uint32_t from, uint32_t to) { return (to - from) & (cap - 1); }
 
